@@ -638,6 +638,59 @@ func genLogq(r *rand.Rand, mode string) logqIn {
 	if mode == "select" && r.Intn(5) == 0 {
 		in.Recs = withTwins(r, in.Recs)
 	}
+	if mode == "select" && r.Intn(4) == 0 {
+		// everything else a record may carry: scope and resource attributes (overriding the record's own and each other, also
+		// msg and level), trace / span ids, a severity, attribute values that are integers, doubles or booleans
+		for i := range in.Recs {
+			rec := &in.Recs[i]
+			if r.Intn(2) == 0 {
+				rec.Scope = [][2][]int{{B(pick(r, []string{"app", "lib", "n", "msg"})), B(pick(r, []string{"s", "web", "7"}))}}
+			}
+			if r.Intn(2) == 0 {
+				rec.Res = [][2][]int{{B(pick(r, []string{"app", "host.name", "level", "lib", "trace_id"})), B(pick(r, []string{"r", "web", "a"}))}}
+			}
+			if r.Intn(3) == 0 {
+				rec.Trace = make([]int, 16)
+				if r.Intn(4) != 0 {
+					for k := range rec.Trace {
+						rec.Trace[k] = []int{0, 1, 0xab, 0xff, 0x0a}[r.Intn(5)]
+					}
+				}
+			}
+			if r.Intn(3) == 0 {
+				rec.Span = make([]int, 8)
+				for k := range rec.Span {
+					rec.Span[k] = []int{0, 0, 0x10, 0xfe}[r.Intn(4)]
+				}
+			}
+			if r.Intn(3) == 0 {
+				rec.Sev = r.Intn(25)
+			}
+			if r.Intn(2) == 0 {
+				switch r.Intn(3) {
+				case 0:
+					rec.Typed = []typedAttr{{K: B("cnt"), T: "int", V: B(pick(r, []string{"5", "-3", "0", "10", "1000000"}))}}
+				case 1:
+					rec.Typed = []typedAttr{{K: B("cnt"), T: "dbl", V: B(pick(r, []string{"2.5", "0.5", "5", "-0.25", "10"}))}}
+				default:
+					rec.Typed = []typedAttr{{K: B("ok"), T: "bool", V: B(pick(r, []string{"true", "false"}))}}
+				}
+			}
+		}
+		// filters on what those layers produce
+		eps, _ := json.Marshal(&ReAST{T: "eps"})
+		switch r.Intn(6) {
+		case 0, 4, 5:
+			lit := pick(r, []string{"5", "2.5", "0", "10"})
+			in.Stages = append(in.Stages, stageIn{T: "label", Pred: &predIn{T: "num", Label: B("cnt"), Op: []string{"eq", "neq", "gt", "gte", "lt", "lte"}[r.Intn(6)], Lit: B(lit), Val: ratOfDecimal(lit)}})
+		case 1:
+			in.Stages = append(in.Stages, stageIn{T: "label", Pred: &predIn{T: "m", Label: B(pick(r, []string{"app", "level", "lib", "ok", "cnt", "host_name"})), Op: allOps[r.Intn(2)], Val: B(pick(r, []string{"r", "web", "Info", "Error2", "true", "5", "s"})), Re: eps}})
+		case 2:
+			in.Stages = append(in.Stages, stageIn{T: "label", Pred: &predIn{T: "m", Label: B(pick(r, []string{"trace_id", "span_id"})), Op: allOps[r.Intn(2)], Val: B(pick(r, []string{"", "00000000000000000000000000000000", "0000000000000000", "abababababababababababababababab"})), Re: eps}})
+		case 3:
+			in.Sel = append(in.Sel, matcherIn{Label: B(pick(r, []string{"app", "level", "lib", "msg"})), Op: allOps[r.Intn(2)], Val: B(pick(r, []string{"r", "web", "s", "Warn"})), Re: eps})
+		}
+	}
 	// 0-3 selector matchers; several on one label with the same operator are a conjunction, not a repetition
 	nm := []int{0, 0, 0, 0, 1, 1, 1, 2, 2, 3}[r.Intn(10)]
 	for k := 0; k < nm; k++ {
